@@ -54,12 +54,12 @@ class Collector:
         self.clauses = []
 
     def add(self, rule, fn_or_site, construct, ok, detail="", node=None,
-            nontrivial=True, path=None, undecided=False):
+            nontrivial=True, path=None, undecided=False, loc=""):
         if hasattr(fn_or_site, "key"):
             site = fn_or_site.key
             loc = fn_or_site.loc(node) if hasattr(fn_or_site, "loc") else ""
         else:
-            site, loc = fn_or_site, ""
+            site = fn_or_site
         status = UNDECIDED if undecided else (OK if ok else FAIL)
         o = Obligation(rule, site, construct, status, detail, loc,
                        nontrivial, path)
